@@ -64,3 +64,19 @@ add("C11", "twin-execution monitor: the same curve fitted with k and with 1, "
     "Comparisons only on well-posed fits (>= 10 in-contact points); plateau "
     "selection flips are counted, not judged; weighting on only for exactly "
     "converged noise-free twins.")
+add("C03", "history monitor with a fresh-copy oracle: random operation "
+    "histories on one long-lived curve, a second execution (fresh object, "
+    "stored settings applied once) compared bitwise after every operation "
+    "that leaves results visible; optimiser calls counted at lmfit.minimize",
+    "Held on the histories observed (thousands of operations incl. raising "
+    "ones, ~1500 bitwise fresh-copy comparisons per quick run).",
+    "The fresh copy is built from the same raw arrays/file; states without "
+    "a hash make no claim and are not compared.")
+add("C06", "request-sequence monitor: all columns fingerprinted after every "
+    "accepted / rejected preprocessing request and compared bytewise with a "
+    "fresh object given the same request once; raw-data digest; audit hook on "
+    "open()",
+    "Held on the request sequences observed (valid pipelines x all option "
+    "values, six kinds of invalid request, through apply_preprocessing and "
+    "fit_model).",
+    "Rejected = the call raises; fresh object from the same raw data.")
